@@ -166,6 +166,14 @@ def classify(comp, model, route, what):
     )
     if route.startswith("dict") and has_extra_on_fixed:
         return "C08-instance-extra-attr"
+    from autofit.mapper.prior.tuple_prior import TuplePrior
+
+    has_tuple_on_fixed = any(
+        isinstance(m, af.Model) and m.prior_count == 0 and any(isinstance(v, TuplePrior) for _, v in X.public_items(m))
+        for m in c03.reachable_models(model)
+    )
+    if route.startswith("dict") and has_tuple_on_fixed and what in ("instance", "raises", "unusable"):
+        return "C08-instance-tuple"
     if route.startswith("database") and X.all_priors(comp) is not None and c01.features(comp)["kinds"] & {"array"}:
         return "C08-database-array"
     return f"C08-{route.split('-')[0]}-{what}"
